@@ -7,7 +7,7 @@ from props.c10 import parse_nodes
 from props import c01
 
 ID = "C02"
-THEOREMS = ["Bufr.C02.C02_single_subset_not_compressed", "Bufr.C02.C02_numeric_column", "Bufr.C02.C02_plan_sound", "Bufr.C02.C02_fallback", "Bufr.C02.C02_flag", "Bufr.C02.C02_same_value_function", "Bufr.C02.C02_af_column", "Bufr.C02.C02_character_column", "Bufr.C02.C02_equal_strings_same_octets", "Bufr.C02.C02_static_compressed", "Bufr.C02.C02_position"]
+THEOREMS = ["Bufr.C02.C02_single_subset_not_compressed", "Bufr.C02.C02_numeric_column", "Bufr.C02.C02_plan_sound", "Bufr.C02.C02_fallback", "Bufr.C02.C02_flag", "Bufr.C02.C02_same_value_function", "Bufr.C02.C02_af_column", "Bufr.C02.C02_character_column", "Bufr.C02.C02_equal_strings_same_octets", "Bufr.C02.C02_static_compressed", "Bufr.C02.C02_position", "Bufr.C02.C02_ieee_column"]
 RULE = ("multi-subset datasets: columns all equal / all missing / partly missing / full-width spans, character columns "
         "equal/different/missing, associated fields equal/different, delayed replication with equal counts, different "
         "counts, and different counts of equal total length; encode with compression requested, decode, compare with "
